@@ -4,9 +4,9 @@
    timedout) and Model/Client.v (UdpClient setters/connect, ServerContext settings, the server
    sweep's drop test). *)
 From RecordUpdate Require Import RecordUpdate.
-From Model Require Import Base SeqNum Wire Conn Client.
+From Model Require Import Base SeqNum Wire Conn Client Net Server TimedNet.
 Import RecordSetNotations.
-From Proofs Require Import ConnFrameP NonceP PackP TimingP.
+From Proofs Require Import ConnFrameP NonceP PackP TimingP IdleP IdleSrvP C12P.
 Open Scope Z_scope.
 
 (* 1. Keep-alive: an idle CONNECTED endpoint whose last packet is older than the keep-alive
@@ -102,10 +102,93 @@ Theorem C12_server_settings : forall ops s,
 Proof. exact server_settings_effective. Qed.
 Print Assumptions C12_server_settings.
 
-(* Modelled, not verified: real clocks, the thread that calls update(); the end-to-end statement
-   "neither side of an idle pair ever times out" is the composition of 1-3 for two endpoints over
-   a network that delivers each keep-alive within d with max(K,si)+tau+d < T; it is observed by
-   harness/props/C12.py on a configuration grid. *)
+(* 6. The two endpoints together (Model/TimedNet.v): a client endpoint and the server-side connection
+      of that client under one clock, the server loop's time-out rule (server_sweep) with
+      connection_timeout T, the client's 5 s rule (inside client_tick), and a network that shows every
+      datagram to the peer at most d after its emission (reordering, further copies up to `life` after
+      the emission, and junk the receiver cannot open, allowed) while both sides call update() at least
+      every tau (tvalid).
+      For an established idle pair (established: both CONNECTED under the same key, nothing queued,
+      each side has the other's newest datagram, liveness clocks no older than one keep-alive
+      period), EVERY keep-alive interval / send interval of either side, EVERY T, tau, d with
+          max(K_client, si_client) + tau + d <  T        (the server removes at now - last_recv >= T)
+          max(K_server, si_server) + tau + d <= 5 s      (the client reports DROPPED at now > last_recv + 5 s)
+          d <= life <= (HALF - 1) * (max(K, si) + 1) for both sides   (fewer than half the 16-bit ring alive)
+      (params_ok) and EVERY admissible history of ANY length:
+      (1) both sides are still CONNECTED under the key and the server has not removed the client; *)
+Theorem C12_idle_pair_stays_up : forall e P k cli srv t0 hs,
+  established k t0 cli srv -> params_ok P cli srv -> tvalid e P (tnet0 cli srv t0) hs ->
+  pair_up k (trun e P (tnet0 cli srv t0) hs).
+Proof. exact idle_pair_stays_up. Qed.
+Print Assumptions C12_idle_pair_stays_up.
+
+(*    (1') quantitatively: neither liveness clock is ever older than the peer's keep-alive period + one
+      tick + the network delay (which is why neither time-out rule fires); *)
+Theorem C12_idle_pair_clocks_fresh : forall e P k cli srv t0 hs,
+  established k t0 cli srv -> params_ok P cli srv -> tvalid e P (tnet0 cli srv t0) hs ->
+  let n := trun e P (tnet0 cli srv t0) hs in
+  t_clk n - c_last_recv (t_srv n) <= kmax cli + tp_tau P + tp_d P /\
+  t_clk n - c_last_recv (t_cli n) <= kmax srv + tp_tau P + tp_d P.
+Proof. exact idle_pair_clocks_fresh. Qed.
+Print Assumptions C12_idle_pair_clocks_fresh.
+
+(*    (2) each side has emitted sealed KEEP_ALIVEs only, the first at most max(K, si) + tau after
+      base_time (its last packet before the start, or one keep-alive period before the start if that
+      is later), consecutive ones at most max(K, si) + tau apart, the newest at most that old. *)
+Theorem C12_idle_pair_cadence : forall e P k cli srv t0 hs,
+  established k t0 cli srv -> params_ok P cli srv -> tvalid e P (tnet0 cli srv t0) hs ->
+  let n := trun e P (tnet0 cli srv t0) hs in
+  (cadence_ok (kmax cli + tp_tau P) (base_time cli t0) (t_clk n) (t_cs n)
+   /\ Forall (fun x => ka_dgram k (snd x)) (wd_log (t_cs n))) /\
+  (cadence_ok (kmax srv + tp_tau P) (base_time srv t0) (t_clk n) (t_sc n)
+   /\ Forall (fun x => ka_dgram k (snd x)) (wd_log (t_sc n))).
+Proof. exact idle_pair_cadence. Qed.
+Print Assumptions C12_idle_pair_cadence.
+
+(*    Admissibility is checked event by event, so (1) and (2) hold at every moment of a history: *)
+Theorem C12_idle_pair_prefix : forall e P vs1 n vs2, tvalid e P n (vs1 ++ vs2) -> tvalid e P n vs1.
+Proof. exact tvalid_app. Qed.
+Print Assumptions C12_idle_pair_prefix.
+
+(*    server_sweep, the server-side step of the pair, is what the sweep of the full server-loop model
+      (Model/Server.v, tied to server.py) does to a CONNECTED client it does not remove: *)
+Theorem C12_server_sweep_is_the_server_loop : forall h e s now cid cl c' o,
+  pfind cid (s_conns s) = Some cl -> c_status (cl_conn cl) = CONNECTED ->
+  server_sweep e (g_conn_timeout (s_cfg s)) (cl_conn cl) now = (c', o, false) ->
+  exists s' so pp, sweep_conn h e s now cid = (s', so, pp) /\ pfind cid (s_conns s') = Some (with_conn cl c').
+Proof. exact sweep_conn_is_server_sweep. Qed.
+Print Assumptions C12_server_sweep_is_the_server_loop.
+
+(*    The quantifier "keep-alive < timeout" of the property text is not enough, even over a perfect
+      network (d = 0): with the client's keep-alive interval 75000 ticks (4.88 s) < T = 76800 (5 s)
+      and update() every 1800 ticks, so that max(K, si) + tau + d = T, an admissible history of an
+      established idle pair ends with the server removing the client.  The strict inequality of
+      params_ok is exact. *)
+Theorem C12_idle_keepalive_lt_timeout_refuted :
+  exists e P k cli srv t0 hs,
+    established k t0 cli srv /\ c_ka_interval cli < tp_T P /\ tp_d P = 0
+    /\ kmax cli + tp_tau P + tp_d P = tp_T P /\ kmax srv + tp_tau P + tp_d P <= 5 * TICKS
+    /\ tvalid e P (tnet0 cli srv t0) hs
+    /\ t_swept (trun e P (tnet0 cli srv t0) hs) = true.
+Proof. exact idle_keepalive_lt_timeout_refuted_proof. Qed.
+Print Assumptions C12_idle_keepalive_lt_timeout_refuted.
+
+(*    ... and likewise the client's bound: server keep-alive interval 75001, tau 1800, d = 0, so that
+      max(K, si) + tau + d = 5 s + 1 tick: the client reports DROPPED. *)
+Theorem C12_idle_pair_client_bound_tight :
+  exists e P k cli srv t0 hs,
+    established k t0 cli srv /\ tp_d P = 0
+    /\ kmax cli + tp_tau P + tp_d P < tp_T P /\ kmax srv + tp_tau P + tp_d P = 5 * TICKS + 1
+    /\ tvalid e P (tnet0 cli srv t0) hs
+    /\ c_status (t_cli (trun e P (tnet0 cli srv t0) hs)) = DROPPED.
+Proof. exact idle_pair_client_bound_tight_proof. Qed.
+Print Assumptions C12_idle_pair_client_bound_tight.
+
+(* Modelled, not verified: real clocks and the threads that call update(); socket buffering (the
+   history says when each datagram is shown to the receiver: the client reads one per update());
+   replays of datagrams older than `life`, in particular of the handshake's CHALLENGE_RESP (sealed under
+   the session key before the pair was established), are outside tvalid; bytes whose header does
+   not parse make UdpClient.update raise and are outside tvalid. *)
 
 (* non-vacuity *)
 Example C12_settings_history :
@@ -122,4 +205,26 @@ Example C12_connect_timeout_fires :
   let '(c2, o2) := client_update c1 (1536000 + 2 * TICKS + 15) in
   let '(c3, o3) := client_update c2 (1536000 + 3 * TICKS) in
   (o1, status_code (c_status c1), o2, status_code (c_status c2), o3) = ([], 1, [OConnCb false], 4, []).
+Proof. vm_compute. reflexivity. Qed.
+
+(* the two-endpoint theorems are not vacuous: the state the MODEL's own handshake produces is an
+   established pair, and a history with delays of 600 and 900 ticks, duplicates (also 1800 ticks late),
+   junk and a simultaneous delivery satisfies tvalid for tau = 300, d = 900, life = 2700, T = 5 s
+   (defaults K = 0.1 s) *)
+Example C12_idle_pair_hypotheses_hold :
+  established 7 (ex_t0 + 900) (nA ex_hs4) (nB ex_hs4) /\ params_ok ex_P (nA ex_hs4) (nB ex_hs4)
+  /\ tvalid env1500 ex_P (tnet0 (nA ex_hs4) (nB ex_hs4) (ex_t0 + 900)) ex_hist.
+Proof.
+  split; [apply establishedb_ok; vm_compute; reflexivity|].
+  split; [apply params_okb_ok; vm_compute; reflexivity|apply tvalidb_ok; vm_compute; reflexivity].
+Qed.
+
+(* ... and what the theorems say about it, computed: three keep-alives each way, 1800 ticks apart,
+   all of them received (the liveness clocks stand at the latest deliveries), nothing in flight *)
+Example C12_idle_pair_history_computed :
+  let n := trun env1500 ex_P (tnet0 (nA ex_hs4) (nB ex_hs4) (ex_t0 + 900)) ex_hist in
+  (status_code (c_status (t_cli n)), status_code (c_status (t_srv n)), t_swept n,
+   map (fun t => t - ex_t0) (em_times (t_cs n)), map (fun t => t - ex_t0) (em_times (t_sc n)),
+   c_last_recv (t_cli n) - ex_t0, c_last_recv (t_srv n) - ex_t0, wd_pend (t_cs n), wd_pend (t_sc n))
+  = (2, 2, false, [2400; 4200; 6000], [2400; 4200; 6000], 6300, 6000, [], []).
 Proof. vm_compute. reflexivity. Qed.
